@@ -768,6 +768,9 @@ class CExec:
         st = self.api.live(st, base, "p->" + name)
         if name in ("ob_type",):
             return self.api.call("Py_TYPE", [base], st, k)
+        for (r, snap) in st.ghost.get("allocs", ()):
+            if name in snap:          # at allocation time no field of any object pointed to the new object r
+                st = st.assume(snap[name][base] != r)
         return k(self.field_array(st, name)[base], st)
 
     def store_field(self, base, fname, v, st2, k):
